@@ -22,7 +22,8 @@ type dcase struct {
 	Kind     string  `json:"kind"` // filter | router
 	DelayUs  int     `json:"delay_us"`
 	JitterUs int     `json:"jitter_us"`
-	Plans    [][]int `json:"plans"` // per sender: gap in microseconds before each datagram
+	Plans    [][]int `json:"plans"`             // per sender: gap in microseconds before each datagram
+	Restart  bool    `json:"restart,omitempty"` // router: Stop and Start again right after the last hand-in, with datagrams still waiting out their delay
 	Seed     int64   `json:"seed"`
 }
 
@@ -96,6 +97,9 @@ func genDelayCase(rng *rand.Rand, kind string) dcase {
 		}
 		c.Plans = append(c.Plans, plan)
 	}
+	if kind == "router" && c.DelayUs >= 10000 && rng.Intn(2) == 0 {
+		c.Restart = true
+	}
 	return c
 }
 
@@ -115,6 +119,7 @@ func runDelayCase(c dcase, r *res.Result) (string, string) {
 	panicCh := make(chan string, 4)
 	var inject func(ch vnet.Chunk)
 	var stop func()
+	var restart func() error
 	parkFn := ""
 	nat := false // the path clones the chunk (NAT): identity is by tag, the source is translated
 	switch c.Kind {
@@ -182,6 +187,12 @@ func runDelayCase(c dcase, r *res.Result) (string, string) {
 		}
 		inject = func(ch vnet.Chunk) { src.Send(ch) }
 		stop = func() { _ = rt.Stop() }
+		restart = func() error {
+			if err := rt.Stop(); err != nil {
+				return err
+			}
+			return rt.Start()
+		}
 		parkFn = "vnet.(*Router).Start.func1"
 	}
 	defer stop()
@@ -278,6 +289,14 @@ wait:
 				}
 			}
 		}
+	}
+	if panicMsg == "" && c.Restart && restart != nil {
+		// the router is stopped and started again while datagrams are still waiting out their delay; nothing is handed in
+		// meanwhile. Once it runs again, what is queued must still be forwarded (not before its delay)
+		if err := restart(); err != nil {
+			return "delay:" + c.Kind + ":restart-failed", "Stop/Start of a router with queued datagrams failed: " + err.Error()
+		}
+		r.Count("router_restarts_with_queued_datagrams", 1)
 	}
 	if panicMsg == "" {
 		// bounded progress: everything handed in must come out while the loop is alive
@@ -387,7 +406,7 @@ func trimStack(s string) string {
 }
 
 func runDelay(tier string, seed int64, shard, nshard int, r *res.Result, replay *dcase) {
-	r.Rule = "arrival plans (bursts, spacing <<, ~, >> delay, arrivals timed at head-due +-50us, 1-4 concurrent senders) against DelayFilter.Run and against a Router with MinDelay/MaxJitter, both with recording source/sink NICs; oracle: sink stamp - stamp taken before hand-in >= delay, per-sender FIFO, exactly once, same chunk object and payload hash, recovered panic = violation, bounded progress decided by a canary timer + parked-loop inspection; distinct = (subject, delay, jitter, senders, size class) cells"
+	r.Rule = "arrival plans (bursts, spacing <<, ~, >> delay, arrivals timed at head-due +-50us, 1-4 concurrent senders) against DelayFilter.Run and against a Router with MinDelay/MaxJitter (in half of the router cases with delay >= 10 ms the router is stopped and started again right after the last hand-in, with datagrams still queued), both with recording source/sink NICs; oracle: sink stamp - stamp taken before hand-in >= delay, per-sender FIFO, exactly once, same chunk object and payload hash, recovered panic = violation, bounded progress decided by a canary timer + parked-loop inspection; distinct = (subject, delay, jitter, senders, size class) cells"
 	r.Assumptions = []string{"lower bounds compare a stamp taken before hand-in with one taken inside the sink: scheduling delay can only increase the difference", "eventual forwarding is checked as bounded progress (canary due 1s after the last due time, loop parked, 3 samples)"}
 	if replay != nil {
 		r.Eval(1)
